@@ -287,6 +287,10 @@ func emptyRootHistory(rng *rand.Rand) racHistory {
 // assignments (values that share 12-byte prefixes, values equal to hashes of internal nodes).
 var racLeaf = specLeaf
 
+// racReuseDeleted: the first leaf a block adds takes the value of the first leaf the same block deletes (that
+// value is not live any more when the additions are made, so the added leaves are still distinct live values).
+var racReuseDeleted = false
+
 // tagged runs f on a scratch result and merges it into r with tag appended to every clause name.
 func (r *racResult) tagged(tag string, f func(tmp *racResult)) {
 	if tag == "" {
@@ -397,6 +401,9 @@ func (w *racWorld) prepare(b racBlock) (blockData, error) {
 	bd.proof = pr
 	for k := 0; k < b.Adds; k++ {
 		h := racLeaf(int(w.spec.n) + k)
+		if racReuseDeleted && k == 0 && len(bd.delHashes) > 0 {
+			h = bd.delHashes[0] // the block re-adds a value it has just deleted
+		}
 		bd.adds = append(bd.adds, h)
 		bd.leaves = append(bd.leaves, Leaf{Hash: h, Remember: true})
 	}
